@@ -147,6 +147,42 @@ REGISTRY.add(Contract(
          "(not vanished, not a zombie) when looked at, and not older than the caller - for every pid -> ppid snapshot"))
 
 
+# --- the guard in front of children()/parent()/ppid(): a handle once seen gone never describes the PID's new owner ------
+
+def setup_guard(it, cfg):
+    o = make_process(it)            # symbolic sticky flags _gone / _pid_reused
+    g0, r0 = o.attrs["_gone"], o.attrs["_pid_reused"]
+    verdict = it.fresh("is_running_now", "Bool")
+    found_reused = it.fresh("found_recycled", "Bool")
+
+    def is_running(it2):
+        # contract of is_running() (proved under C01/C02): sticky flags short-circuit; a False answer is latched in
+        # _gone or _pid_reused
+        it2.ctx.log.append(("is_running",))
+        if it2.truth(it2.as_bool(Or(it2.as_bool(o.attrs["_gone"]), it2.as_bool(o.attrs["_pid_reused"]))), "sticky"):
+            return False
+        if it2.truth(verdict, "running"):
+            return True
+        if it2.truth(found_reused, "recycled"):
+            o.attrs["_pid_reused"] = True
+        else:
+            o.attrs["_gone"] = True
+        return False
+
+    o.attrs["is_running"] = EnvFunc("is_running", is_running)
+    return {"args": {"self": o}, "spec": {"g0": g0, "r0": r0, "verdict": verdict}, "values": [g0, r0, verdict, found_reused]}
+
+
+REGISTRY.add(Contract(
+    "C05", INIT, "Process._raise_if_pid_reused", setup=setup_guard, env=ENV, inline=["pid"],
+    ensures=["not g0 and not r0",                       # returns only for a handle never seen gone or recycled ...
+             "not self._pid_reused and not self._gone"],
+    raises={"NoSuchProcess": ["exc.pid == self._pid"]},
+    canaries=["g0"], replay=None,
+    note="children()/parent()/ppid() start with this guard: once the process was seen gone or its PID recycled, they raise "
+         "NoSuchProcess instead of describing whoever owns the PID now"))
+
+
 # --- children(): bounded ------------------------------------------------------------------------------------
 CH = Contract("C05", INIT, "Process.children", env=ENV,
               ensures=["children() == listed processes whose parent is this process; children(recursive=True) == "
